@@ -34,6 +34,7 @@ def run_trace_job(pid, job, tier, seed):
             if k > 0:
                 a.pop("subtrees", None)
                 a.pop("deep", None)
+                a.pop("roots-file", None)
             return run_recorder(job.get("variant", "release"), job["driver"],
                                 ["--seed", seed + job.get("seed_offset", 0) + 1000003 * k, "--shards", max(1, nshards // procs), "--out", "%s%d" % (prefix, k)] + flatten(a))
         with concurrent.futures.ThreadPoolExecutor(max_workers=procs) as ex:
